@@ -32,7 +32,15 @@ fn case(tier: Tier, rng: &mut Rng, rep: &mut Report) {
     let r = gen_edge_local(rng, &net);
     world.frontier = r.cfg.clone();
     let query = query_with(&r.query_fields);
-    let graph = Arc::new(net.to_graph());
+    let via_files = rng.chance(0.2);
+    let graph = match crate::gen::net::graph_for(&net, via_files) {
+        Ok(g) => g,
+        Err(e) => {
+            rep.violate("graph-load|error", format!("the network files written by the generator were refused: {e}"), || net.to_json());
+            return;
+        }
+    };
+    rep.count(if via_files { "graphs_loaded_from_files" } else { "graphs_built_in_memory" }, 1);
     let mut si = match world.si(graph, &query) {
         Ok(s) => s,
         Err(e) => {
